@@ -587,19 +587,56 @@ def _same_or_inner_block(stmt, node) -> bool:
 
 # ============================================================================ R1 tracker roles
 
+TRACKER_FIELDS = {"self.in_injections", "self.out_injections"}
+
+
+def selector_fn(repo) -> FuncInfo:
+    """The tracker-selecting helper of ProxiedCircuit, found by shape (not by name): the method all of
+    whose returns are pairs of the two per-direction tracker fields."""
+    ci = repo.cls("ProxiedCircuit", PCIRC)
+    found = []
+    for f in ci.methods.values():
+        rets = [r for r in walk(f.node) if isinstance(r, ast.Return)]
+        if rets and all(isinstance(r.value, ast.Tuple) and len(r.value.elts) == 2
+                        and {ap(e) for e in r.value.elts} == TRACKER_FIELDS for r in rets):
+            found.append(f)
+    if len(found) != 1:
+        raise AnalysisError(f"ProxiedCircuit: expected one method returning the (in_injections, out_injections) pairs "
+                            f"by direction, found {[f.qual for f in found]}")
+    return found[0]
+
+
+def method_params(callee: FuncInfo) -> List[str]:
+    """Parameter names as seen by a caller (without self/cls; staticmethods keep all)."""
+    names = [a.arg for a in callee.node.args.args]
+    static = any((ap(d) or "").split(".")[-1] == "staticmethod" for d in callee.node.decorator_list)
+    return names if static or callee.cls is None else names[1:]
+
+
+def resolve_method_call(repo, fi: FuncInfo, c: ast.Call) -> Optional[FuncInfo]:
+    """self.m(...) / cls.m(...) / OwnClass.m(...) -> the method (class hierarchy of fi)."""
+    f = c.func
+    if not (isinstance(f, ast.Attribute) and isinstance(f.value, ast.Name) and fi.cls is not None):
+        return None
+    if f.value.id in ("self", "cls") or f.value.id in {k.name for k in repo.mro(fi.cls)}:
+        return repo.lookup_method(fi.cls, f.attr)
+    return None
+
+
 def tracker_roles(ctx, start: FuncInfo) -> Dict[FuncInfo, Dict[str, str]]:
     """For start and the self.-helpers it reaches: local name -> 'fwd' | 'rev'."""
     repo = ctx.repo
+    sel = selector_fn(repo)
     out: Dict[FuncInfo, Dict[str, str]] = {start: {}}
     work = [start]
     while work:
         fi = work.pop()
         roles = out[fi]
         for n in walk(fi.node):
-            if isinstance(n, ast.Assign) and isinstance(n.value, ast.Call) and call_attr(n.value) == "_get_injections":
+            if isinstance(n, ast.Assign) and isinstance(n.value, ast.Call) and call_attr(n.value) == sel.name:
                 tgt = n.targets[0]
                 if not (isinstance(tgt, ast.Tuple) and len(tgt.elts) == 2 and all(isinstance(e, ast.Name) for e in tgt.elts)):
-                    raise AnalysisError(f"{fi.qual}: result of _get_injections is not unpacked into two names")
+                    raise AnalysisError(f"{fi.qual}: result of {sel.name} is not unpacked into two names")
                 arg = n.value.args[0] if n.value.args else None
                 m = msg_param(fi)
                 swap = False
@@ -608,17 +645,14 @@ def tracker_roles(ctx, start: FuncInfo) -> Dict[FuncInfo, Dict[str, str]]:
                 elif arg is not None and is_invert_of(arg, f"{m}.direction"):
                     swap = True
                 else:
-                    raise AnalysisError(f"{fi.qual}: _get_injections argument {norm(arg) if arg is not None else None} "
+                    raise AnalysisError(f"{fi.qual}: {sel.name} argument {norm(arg) if arg is not None else None} "
                                         f"is not the message's direction")
                 a, b = tgt.elts[0].id, tgt.elts[1].id
                 roles[a], roles[b] = ("rev", "fwd") if swap else ("fwd", "rev")
         for c in calls(fi.node, into_defs=True):
-            f = c.func
-            if isinstance(f, ast.Attribute) and isinstance(f.value, ast.Name) and f.value.id == "self" and fi.cls is not None:
-                callee = repo.lookup_method(fi.cls, f.attr)
-                if callee is None:
-                    continue
-                params = [a.arg for a in callee.node.args.args][1:]
+            callee = resolve_method_call(repo, fi, c)
+            if callee is not None:
+                params = method_params(callee)
                 passed = {}
                 for i, a in enumerate(c.args):
                     if isinstance(a, ast.Name) and a.id in roles and i < len(params):
@@ -643,13 +677,13 @@ def r1(ctx):
     repo = ctx.repo
     ctx.rule("C05.R1", "tracker roles: _get_injections returns (forward, reverse) per direction; packet IDs go "
                        "through the forward tracker only, acks through the reverse tracker only")
-    gi = repo.fn("ProxiedCircuit._get_injections")
+    gi = selector_fn(repo)
     dparam = msg_param(gi)
     seen = {"OUT": 0, "IN": 0}
     for ret in [n for n in walk(gi.node) if isinstance(n, ast.Return)]:
         v = ret.value
         if not (isinstance(v, ast.Tuple) and len(v.elts) == 2 and all(ap(e) for e in v.elts)):
-            raise AnalysisError(f"_get_injections: unsupported return shape {norm(ret)}")
+            raise AnalysisError(f"{gi.qual}: unsupported return shape {norm(ret)}")
         pol = None
         for e, p in facts(ret, gi.node):
             if isinstance(e, ast.Compare) and len(e.ops) == 1 and isinstance(e.ops[0], (ast.Eq, ast.NotEq, ast.Is, ast.IsNot)):
@@ -662,14 +696,14 @@ def r1(ctx):
                     elif other.endswith("Direction.IN"):
                         pol = "IN" if eq else "OUT"
         if pol is None:
-            raise AnalysisError(f"_get_injections: cannot tell for which direction `{norm(ret)}` is returned")
+            raise AnalysisError(f"{gi.qual}: cannot tell for which direction `{norm(ret)}` is returned")
         seen[pol] += 1
         want = ("self.out_injections", "self.in_injections") if pol == "OUT" else ("self.in_injections", "self.out_injections")
         got = (ap(v.elts[0]), ap(v.elts[1]))
-        ctx.ob("C05.R1", f"_get_injections[{pol}] returns (forward, reverse) = {want}", got == want, ctx.w(gi, ret),
+        ctx.ob("C05.R1", f"tracker selector[{pol}] returns (forward, reverse) = {want}", got == want, ctx.w(gi, ret),
                f"returns {got}: IDs of {pol} packets would be translated in the other direction's ID space")
-    ctx.floor("C05.R1", "_get_injections OUT returns", seen["OUT"], 1)
-    ctx.floor("C05.R1", "_get_injections IN returns", seen["IN"], 1)
+    ctx.floor("C05.R1", "tracker selector OUT returns", seen["OUT"], 1)
+    ctx.floor("C05.R1", "tracker selector IN returns", seen["IN"], 1)
 
     nf = nr = 0
     role_fns = set()
@@ -695,8 +729,8 @@ def r1(ctx):
                        roles[recv.id] == want, ctx.w(fi, c),
                        f"{meth} is a {'packet-ID' if want == 'fwd' else 'ack'} operation but runs on the "
                        f"{'reverse' if want == 'fwd' else 'forward'} tracker")
-    ctx.floor("C05.R1", "forward-tracker calls", nf, 4)
-    ctx.floor("C05.R1", "reverse-tracker calls", nr, 4)
+    ctx.floor("C05.R1", "forward-tracker calls", nf, 3)
+    ctx.floor("C05.R1", "reverse-tracker calls", nr, 2)
     # nobody else drives the trackers
     for meth in sorted(FWD | REV):
         for f, c in callers_of(repo, meth):
@@ -711,8 +745,39 @@ def r1(ctx):
 # ============================================================================ R2 ack sanitiser
 
 class Sanit:
-    def __init__(self, fi: FuncInfo, roles: Dict[str, str], msg: Optional[str]):
+    def __init__(self, fi: FuncInfo, roles: Dict[str, str], msg: Optional[str], sources=None, roles_map=None, repo=None):
         self.fi, self.roles, self.msg = fi, roles, msg
+        # access paths that denote the raw appended acks in this function
+        self.sources = set(sources) if sources is not None else ({f"{msg}.acks"} if msg else set())
+        self.roles_map = roles_map or {}
+        self.repo = repo
+
+    def is_source(self, e) -> bool:
+        return ap(e) in self.sources
+
+    def via_helper(self, e, depth) -> Optional[Tuple[bool, str]]:
+        """e is a call of a helper method that receives the raw acks: every return of the helper must be
+        sanitised with respect to the receiving parameter."""
+        if not isinstance(e, ast.Call) or self.repo is None:
+            return None
+        callee = resolve_method_call(self.repo, self.fi, e)
+        if callee is None:
+            return None
+        params = method_params(callee)
+        srcs = {params[i] for i, a in enumerate(e.args) if i < len(params) and self.is_source(a)}
+        srcs |= {k.arg for k in e.keywords if k.arg and self.is_source(k.value)}
+        if not srcs:
+            return None
+        roles = self.roles_map.get(callee, {})
+        sub = Sanit(callee, roles, None, sources=srcs, roles_map=self.roles_map, repo=self.repo)
+        rets = [r for r in walk(callee.node) if isinstance(r, ast.Return) and r.value is not None]
+        if not rets:
+            return False, f"helper {callee.qual} returns nothing"
+        for r in rets:
+            ok, why = sub.sanitised(r.value, depth + 1)
+            if not ok:
+                return False, f"helper {callee.qual}: {why}"
+        return True, ""
 
     def rev(self, e) -> bool:
         return isinstance(e, ast.Name) and self.roles.get(e.id) == "rev"
@@ -730,10 +795,10 @@ class Sanit:
             if isinstance(n, (ast.ListComp, ast.GeneratorExp, ast.SetComp)):
                 for g in n.generators:
                     if isinstance(g.target, ast.Name) and g.target.id == x.id and any(a is n for a in ancestors(x)):
-                        return "acks" if self.msg and ap(g.iter) == f"{self.msg}.acks" else None
+                        return "acks" if self.is_source(g.iter) else None
             if isinstance(n, (ast.For, ast.AsyncFor)) and isinstance(n.target, ast.Name) and n.target.id == x.id \
                     and any(a is n for a in ancestors(x)):
-                return "acks" if self.msg and ap(n.iter) == f"{self.msg}.acks" else None
+                return "acks" if self.is_source(n.iter) else None
         v = single_assign(self.fi.node, x.id)
         if v is not None and is_const_sub(v, "ID"):
             return self.elem_origin(v)
@@ -781,6 +846,9 @@ class Sanit:
     def sanitised(self, e, depth=0) -> Tuple[bool, str]:
         if depth > 6:
             return False, "expression too deep"
+        h = self.via_helper(e, depth)
+        if h is not None:
+            return h
         if isinstance(e, ast.Call) and (ap(e.func) in ("tuple", "list", "set", "sorted", "frozenset")) and len(e.args) == 1:
             return self.sanitised(e.args[0], depth + 1)
         if isinstance(e, (ast.ListComp, ast.GeneratorExp, ast.SetComp)):
@@ -820,7 +888,7 @@ class Sanit:
                 else:
                     return False, f"`{e.id}` mutated by {s.kind} {s.method or ''}"
             return True, ""
-        return False, f"`{norm(e)}` is not built from `<reverse>.get_original_id(x) for x in {self.msg}.acks if not " \
+        return False, f"`{norm(e)}` is not built from `<reverse>.get_original_id(x) for x in {sorted(self.sources)} if not " \
                       f"<reverse>.was_injected(x)`"
 
 
@@ -855,11 +923,12 @@ def r2(ctx):
     dm = repo.fn("ProxiedCircuit.drop_message")
     n_sinks = 0
     for start in (pm, dm):
-        for fi, roles in tracker_roles(ctx, start).items():
+        rmap = tracker_roles(ctx, start)
+        for fi, roles in rmap.items():
             if fi.cls is None or fi.cls.name != "ProxiedCircuit":
                 continue
             msg = msg_param(fi)
-            sz = Sanit(fi, roles, msg)
+            sz = Sanit(fi, roles, msg, roles_map=rmap, repo=repo)
             for st in stores(fi.node, into_defs=True):
                 # forwarded message's appended acks
                 if st.path == f"{msg}.acks" and st.kind in ("assign", "augassign"):
@@ -893,18 +962,25 @@ def r2(ctx):
            "no store to message.acks: wire-space acks (including acks for injected packets) reach the endpoint")
 
     # PacketAck rewrite helper: injected blocks removed, new block list installed, emptiness reported
-    rp_calls = [c for c in find_calls(pm.node, "_rewrite_packet_ack")]
+    pm_map = tracker_roles(ctx, pm)
+    # the PacketAck block rewriter, found by shape: the helper reached from prepare_message that stores block["ID"]
+    rps = [f for f in pm_map if f != pm and any(st.kind == "setitem" and is_const_sub(st.target, "ID") for st in stores(f.node))]
+    if len(rps) > 1 or (not rps and any(st.kind == "setitem" and is_const_sub(st.target, "ID") for st in stores(pm.node))):
+        raise AnalysisError("prepare_message: PacketAck block rewrite is not in exactly one helper (inlined or split): "
+                            "read it and extend C05.R2")
+    rp = rps[0] if rps else None
+    rp_name = rp.name if rp is not None else "_rewrite_packet_ack"
+    rp_calls = [c for c in find_calls(pm.node, rp_name)]
     ctx.ob("C05.R2", "ProxiedCircuit.prepare_message rewrites PacketAck blocks", len(rp_calls) >= 1, pm.where,
            "PacketAck block IDs are forwarded untranslated")
     for c in rp_calls:
         bad = _guards_allowed(c, pm, pm_msg, extra=(lambda e, pol: name_eq_atom(e, "PacketAck") and pol,))
         ctx.ob("C05.R2", "ProxiedCircuit.prepare_message: PacketAck rewrite runs for every endpoint-originated PacketAck",
                not bad and name_fact(c, "PacketAck", pm.node) is True, ctx.w(pm, c), f"depends on {bad}")
-    rp = repo.fn_opt("ProxiedCircuit._rewrite_packet_ack")
     if rp is not None and rp_calls:
         rmsg = msg_param(rp)
-        roles = tracker_roles(ctx, pm).get(rp, {})
-        sz = Sanit(rp, roles, rmsg)
+        roles = pm_map.get(rp, {})
+        sz = Sanit(rp, roles, rmsg, roles_map=pm_map, repo=repo)
         installs = [st for st in stores(rp.node) if st.kind == "setitem" and is_const_sub(st.target, "Packets")
                     and ap(st.target.value) == rmsg]
         ctx.ob("C05.R2", "_rewrite_packet_ack installs the filtered block list", len(installs) >= 1, rp.where,
@@ -933,7 +1009,7 @@ def r2(ctx):
                        "an all-injected PacketAck is not reported to the caller and goes out empty")
         # caller does not send it
         rets = [r for r in walk(pm.node) if isinstance(r, ast.Return) and isinstance(r.value, ast.Constant)
-                and r.value.value is False and call_fact(r, "_rewrite_packet_ack", pm.node) is False]
+                and r.value.value is False and call_fact(r, rp_name, pm.node) is False]
         ctx.ob("C05.R2", "prepare_message returns False for a PacketAck left with no acks at all", len(rets) >= 1, pm.where,
                "emptied PacketAck is still sent")
         for r in rets:
@@ -960,8 +1036,9 @@ def r3(ctx):
                        "packet's own direction")
     dm = repo.fn("ProxiedCircuit.drop_message")
     msg = msg_param(dm)
-    roles = tracker_roles(ctx, dm).get(dm, {})
-    sz = Sanit(dm, roles, msg)
+    dmap = tracker_roles(ctx, dm)
+    roles = dmap.get(dm, {})
+    sz = Sanit(dm, roles, msg, roles_map=dmap, repo=repo)
     sa = repo.fn("Circuit.send_acks", BCIRC)
     sa_params = [a.arg for a in sa.node.args.args][1:]
     ctx.require(sa_params[:2] == ["to_ack", "direction"], "Circuit.send_acks signature changed (to_ack, direction, ...)")
@@ -1148,6 +1225,42 @@ def check_resend(ctx, rule):
         txt = src(origin) if origin is not None else ""
         ctx.ob(rule, "Circuit.resend_unacked resends the entry's own message", ".message" in txt, ctx.w(ru, c),
                f"resent message comes from `{txt}`")
+    # cadence: the resend is held back by a test on the time elapsed since last_resent, over the full duration
+    def expand(e, depth=0):
+        """e with local names (assigned once) replaced by their values, as a list of sub-expressions to inspect."""
+        out = [e]
+        if depth < 4:
+            for n in ast.walk(e):
+                if isinstance(n, ast.Name):
+                    v = single_assign(ru.node, n.id)
+                    if v is not None:
+                        out.extend(expand(v, depth + 1))
+        return out
+    for c in sends:
+        tests = []
+        for cond in conditions(c, ru.node):
+            parts = expand(cond.test)
+            if any("last_resent" in src(p_) for p_ in parts):
+                tests.append((cond, parts))
+        ctx.ob(rule, "Circuit.resend_unacked: a retransmission waits for the time elapsed since last_resent", bool(tests),
+               ctx.w(ru, c), "no dominating test on last_resent: every timer tick retransmits every unacked packet")
+        for cond, parts in tests:
+            comps = sorted({n.attr for p_ in parts for n in ast.walk(p_) if isinstance(n, ast.Attribute)
+                            and n.attr in ("seconds", "microseconds", "days") and isinstance(n.ctx, ast.Load)})
+            ctx.ob(rule, "Circuit.resend_unacked: the cadence test compares the full elapsed duration", not comps,
+                   ctx.w(ru, cond.test),
+                   f"uses the timedelta component(s) {comps} of the elapsed time: `.seconds` is the whole-second "
+                   f"remainder modulo one day (fractional cadences fire late, an entry older than a day looks fresh); "
+                   f"compare timedeltas or use total_seconds()")
+            ctx.ob(rule, "Circuit.resend_unacked: the cadence test uses the configured resend_every",
+                   any("resend_every" in src(p_) for p_ in parts), ctx.w(ru, cond.test),
+                   "the hold-back interval is not the circuit's resend_every")
+    stamps = [st for st in stores(ru.node) if st.path.endswith(".last_resent")]
+    stamp_nodes = [n for st in stamps for n in cfg.nodes_for(st.node)]
+    reach_s = cfg.reachable(head, avoid=lambda n: n in stamp_nodes)
+    ctx.ob(rule, "Circuit.resend_unacked: every retransmission restarts the interval (last_resent updated)",
+           bool(stamps) and not any(n in reach_s for n in send_nodes), ru.where,
+           "a path resends without updating last_resent: the packet is retransmitted on every tick afterwards")
     # budget
     decs = [st for st in stores(ru.node) if st.kind == "augassign" and isinstance(st.node.op, ast.Sub)
             and st.path.endswith(".tries_left")]
